@@ -49,7 +49,7 @@ def preload():
 
 EXPECTED_PROBES = {t: ["enum_width_3", "enum_width_5_7", "enum_width_9_16", "raise_then_layout", "relayout_same",
                        "options_then_plain_binding", "nested_array", "array_of_struct_unrolled", "ids_out_of_order",
-                       "same_field_name_in_two_structs_with_block"] for t in TIERS}
+                       "same_field_name_in_two_structs_with_block", "sibling_named_like_array_element"] for t in TIERS}
 
 OPT_KEYS = ("endianess", "mux_signal", "mux_count")
 
@@ -109,6 +109,15 @@ def gen_schema(rng):
             if rng.random() < 0.2:
                 f["unit"] = rng.choice(["C", "V", "rpm", "%"])
             fields.append(f)
+        # a sibling whose name is another SCALAR field's name plus _<digit> (it looks like an unrolled array element but is
+        # a differently named field: options declared for X must not reach X_1). Never next to an array called X: there
+        # X_1 would collide with the unrolled element, which is the naming scheme's own ambiguity, not judged here.
+        scal = [f for f in fields if f["type"][0] in ("u", "i", "f32", "f64", "enum")]
+        if scal and rng.random() < 0.3:
+            base_f = rng.choice(scal)
+            fields.append({"name": f"{base_f['name']}_{rng.randint(0, 2)}", "id": max(f["id"] for f in fields) + 1 + rng.randint(0, 2),
+                           "type": [rng.choice("ui"), rng.randint(1, 16)]})
+            rng.shuffle(fields)
         name = f"Msg{S.PASCAL[(si * 7 + 3) % len(S.PASCAL)]}{si}"
         decls.append({"kind": "struct", "name": name, "fields": fields})
         structs.append((name, depth_here))
@@ -469,6 +478,8 @@ def schema_probes(decls, probes):
             probes["ids_out_of_order"] += 1
         for f in s["fields"]:
             names[f["name"]] += 1
+            if f["name"][-2:-1] == "_" and f["name"][-1].isdigit():
+                probes["sibling_named_like_array_element"] += 1
             t = f["type"]
             if t[0] == "arr" and t[1][0] == "arr":
                 probes["nested_array"] += 1
@@ -478,7 +489,7 @@ def schema_probes(decls, probes):
         if d["kind"] == "impl":
             for sb in d["signals"]:
                 if names[sb["name"]] >= 2:
-                    probes["same_field_name_in_two_structs_with_block"] += 1
+                    probes["same_field_name_in_two_structs_with_block", "sibling_named_like_array_element"] += 1
 
 
 def mk_violation(v, decls, ops, run=None):
